@@ -22,10 +22,15 @@ def system_inv(s):
                    and not is_none(s._molecules[k].mixture._system_mass) and val(s._molecules[k].mixture._relative_mass) >= 0)))
 ''')
 
-contract("system.System.system_mass", is_property=True, trusted=True,
-         why_trusted="reads the first molecule's mixture and compares the others; stated as an uninterpreted function of the system (the value itself is checked by the C12 driver)",
-         props=["C13"], params=dict(self=Ref("System")), returns=REAL,
-         ensures=["result == sysmass(self)"], raises_may={"ValueError": "True", "RuntimeError": "True"}, modifies=[], allocates=False)
+_SMASS = {"result == sysmass(self)": "the-system-mass-is-the-first-components",
+          "forall(lambda k: implies(0 <= k and k < len(self._molecules), result - val(self._molecules[k].mixture._system_mass) <= 0.00000001))": "no-component-claims-a-smaller-system-mass",
+          "self._generable and len(self._molecules) >= 1": "only-for-a-generable-non-empty-system"}
+contract("system.System.system_mass", is_property=True,
+         props=["C13", "C12"], params=dict(self=Ref("System")), returns=REAL,
+         requires=["system_inv(self)"],
+         ensures=list(_SMASS), labels=_SMASS, raises_may={"ValueError": "True", "RuntimeError": "True"}, modifies=[], allocates=False,
+         loops={1: dict(anchor="mol in self._molecules", allocates=False,
+                        inv=["forall(lambda k: implies(0 <= k and k < _i1, system_mass - val(self._molecules[k].mixture._system_mass) <= 0.00000001))"])})
 
 contract("molecule.Molecule.generate", trusted=True,
          why_trusted="folds element.generate (Stochastic.generate / SmilesToken.generate, both proved) over the elements; the loop invariant over a molecule that is first None, then "
